@@ -105,7 +105,7 @@ def _brandes(prog, rep, f, kind, edges):
            'each node of the current frontier must be recorded exactly once, unconditionally', line=fs.lineno)
     # other stores into Q
     others = [s for s in body_stmts if isinstance(s, ast.Assign) and s is not fs and any(norm(t).startswith(Q + '[') for t in _targets(s)) and not m.match(s, '%s = $X' % Q)]
-    unreach_src = {'wei': ('np.where(np.isinf(D))',), 'bin': ('np.where(np.logical_not(D))', 'np.where(D == 0)')}[kind]
+    unreach_src = {'wei': ('np.flatnonzero(np.isinf(D))',), 'bin': ('np.flatnonzero(np.logical_not(D))', 'np.flatnonzero(D == 0)')}[kind]
     ok_slice = False
     why = 'no statement places the unreachable nodes into the order array'
     tail = None
